@@ -116,6 +116,21 @@ func collectSharedFields(c *core.Ctx, pd *PkgInfo) map[string][]sharedAccess {
 						} else {
 							read = true
 						}
+						// a map held in the field is written through the loaded map value
+						if ld, ok := r.(*ssa.UnOp); ok && ld.Referrers() != nil {
+							for _, r2 := range *ld.Referrers() {
+								switch t := r2.(type) {
+								case *ssa.MapUpdate:
+									if t.Map == ssa.Value(ld) {
+										write = true
+									}
+								case *ssa.Call:
+									if b, ok := t.Call.Value.(*ssa.Builtin); ok && b.Name() == "delete" && len(t.Call.Args) > 0 && t.Call.Args[0] == ssa.Value(ld) {
+										write = true
+									}
+								}
+							}
+						}
 					}
 				}
 				_ = read
@@ -194,7 +209,7 @@ func DebugShared(c *core.Ctx) {
 }
 
 func checkSharedFields(c *core.Ctx, pd *PkgInfo) {
-	st := c.Rule("R12.10", "thread-shared fields are discovered, not listed: a field of a driver type that is written by one kind of thread (application threads enter through the exported methods of Driver / Context / CommandQueue, the simulation goroutine through Tick / Handle / runAsync / runEngine; call-graph reachability inside the package, interface calls resolved to the package's implementations) and accessed by the other kind is accessed only with a mutex held, and all its accesses have one mutex (by field name) in common; exempt are fields with a stated hand-off (written only before the simulation goroutine exists)", 8)
+	st := c.Rule("R12.10", "thread-shared fields are discovered, not listed: a field of a driver type that is written by one kind of thread and accessed by the other, or a field of Driver that application threads write (they also run concurrently with each other) (application threads enter through the exported methods of Driver / Context / CommandQueue, the simulation goroutine through Tick / Handle / runAsync / runEngine; call-graph reachability inside the package, interface calls resolved to the package's implementations) and accessed by the other kind is accessed only with a mutex held, and all its accesses have one mutex (by field name) in common; exempt are fields with a stated hand-off (written only before the simulation goroutine exists)", 8)
 	handOff := map[string]string{
 		"Driver.GPUs":         "written only by RegisterGPU, a configuration call of the platform builder made before Run starts the simulation goroutine (assumption: RegisterGPU is not called afterwards)",
 		"Driver.simulationID": "written in Run before the `go` statement that starts the simulation goroutine",
@@ -223,7 +238,12 @@ func checkSharedFields(c *core.Ctx, pd *PkgInfo) {
 				}
 			}
 		}
-		if !((appW > 0 && simA > 0) || (simW > 0 && appA > 0)) {
+		// Application threads also run concurrently with each other (one goroutine
+		// per benchmark in the runner, one per GPU in data-parallel training), and
+		// the Driver is the one object they all share: a field of Driver that API
+		// code writes is shared even if the simulation goroutine never touches it.
+		appShared := strings.HasPrefix(id, "Driver.") && appW > 0
+		if !((appW > 0 && simA > 0) || (simW > 0 && appA > 0) || appShared) {
 			continue
 		}
 		nShared++
@@ -421,5 +441,42 @@ func DebugEntryLocks(c *core.Ctx) {
 	sort.Strings(names)
 	for _, n := range names {
 		fmt.Println(n)
+	}
+}
+
+// DebugAppWrites prints the fields of Driver written from API-reachable code without a lock.
+func DebugAppWrites(c *core.Ctx) {
+	c.Load(driverPkg)
+	c.BuildSSA()
+	pd := NewPkgInfo(c, driverPkg)
+	acc := collectSharedFields(c, pd)
+	var ids []string
+	for id := range acc {
+		ids = append(ids, id)
+	}
+	sort.Strings(ids)
+	for _, id := range ids {
+		if !strings.HasPrefix(id, "Driver.") {
+			continue
+		}
+		appW := 0
+		for _, a := range acc[id] {
+			if a.app && a.write {
+				appW++
+			}
+		}
+		if appW == 0 {
+			continue
+		}
+		fmt.Printf("%s: %d accesses, %d writes from API code\n", id, len(acc[id]), appW)
+		for _, a := range acc[id] {
+			if a.app && len(a.locks) == 0 {
+				w := "r"
+				if a.write {
+					w = "W"
+				}
+				fmt.Printf("     unlocked %s %s %s\n", w, core.FuncName(a.fn), c.Position(a.in.Pos()))
+			}
+		}
 	}
 }
